@@ -9,10 +9,12 @@
    per-worktree; info/sparse-checkout is shared; lock files of shared files and
    a few more common names are private).  The isolation theorems below are
    proved for ALL paths in terms of go_common; the agreement with git outside the
-   refuted shapes is NOT proved for all paths (it needs a normal form of both
-   classifiers over the first three path components and the .lock suffix): it
-   is checked on the named paths by C33_routing_named and exercised on generated
-   paths on every run (G = implementation, S = `git rev-parse --git-path`). *)
+   refuted shapes is proved for whole families of paths (C33_routing_eq_families:
+   every suffix below objects/, refs/heads/, refs/tags/, refs/remotes/, hooks/,
+   worktrees/, logs/refs/heads/) but NOT for all paths at once (that needs a normal
+   form of both classifiers over the first three path components and the .lock
+   suffix); the remaining names are checked by C33_routing_named and exercised on
+   generated paths on every run (G = implementation, S = `git rev-parse --git-path`). *)
 From Coq Require Import List NArith Bool String.
 From GoGit Require Import Base.Out Model.WtRoute Spec.GitCommonDir Proofs.C33.
 Import ListNotations.
@@ -59,6 +61,39 @@ Proof.
   split; [apply common_remotes|]. split; reflexivity.
 Qed.
 Print Assumptions C33_common_paths.
+
+(* --- agreement with git on whole families: for EVERY suffix (any depth, any
+   bytes, with or without a .lock ending) both put the path in the common directory *)
+Theorem C33_routing_eq_families : forall rest,
+  (go_common (s "objects/" ++ rest) = true /\ git_common (s "objects/" ++ rest) = true) /\
+  (go_common (s "refs/heads/" ++ rest) = true /\ git_common (s "refs/heads/" ++ rest) = true) /\
+  (go_common (s "refs/tags/" ++ rest) = true /\ git_common (s "refs/tags/" ++ rest) = true) /\
+  (go_common (s "refs/remotes/" ++ rest) = true /\ git_common (s "refs/remotes/" ++ rest) = true) /\
+  (go_common (s "hooks/" ++ rest) = true /\ git_common (s "hooks/" ++ rest) = true) /\
+  (go_common (s "worktrees/" ++ rest) = true /\ git_common (s "worktrees/" ++ rest) = true) /\
+  (go_common (s "logs/refs/heads/" ++ rest) = true /\ git_common (s "logs/refs/heads/" ++ rest) = true).
+Proof.
+  intros rest.
+  split; [split; [reflexivity|apply fam_objects]|]. split; [split; [reflexivity|apply fam_heads]|].
+  split; [split; [reflexivity|apply fam_tags]|]. split; [split; [reflexivity|apply fam_remotes]|].
+  split; [split; [reflexivity|apply fam_hooks]|]. split; [split; [reflexivity|apply fam_worktrees]|].
+  split; [reflexivity|apply fam_logs_heads].
+Qed.
+Print Assumptions C33_routing_eq_families.
+
+(* ... and disagreement on whole families: every ref (and reflog) below
+   refs/bisect, refs/worktree, refs/rewritten is per-worktree for git, shared by go-git *)
+Theorem C33_per_worktree_refs_refuted : forall rest,
+  (go_common (s "refs/bisect/" ++ rest) = true /\ git_common (s "refs/bisect/" ++ rest) = false) /\
+  (go_common (s "refs/worktree/" ++ rest) = true /\ git_common (s "refs/worktree/" ++ rest) = false) /\
+  (go_common (s "refs/rewritten/" ++ rest) = true /\ git_common (s "refs/rewritten/" ++ rest) = false) /\
+  (go_common (s "logs/refs/bisect/" ++ rest) = true /\ git_common (s "logs/refs/bisect/" ++ rest) = false).
+Proof.
+  intros rest.
+  split; [split; [reflexivity|apply fam_bisect]|]. split; [split; [reflexivity|apply fam_worktree_refs]|].
+  split; [split; [reflexivity|apply fam_rewritten]|]. split; [reflexivity|apply fam_logs_bisect].
+Qed.
+Print Assumptions C33_per_worktree_refs_refuted.
 
 (* --- where the routing departs from git *)
 (* bisect / worktree / rewritten refs: per-worktree for git, shared by go-git;
